@@ -103,6 +103,22 @@ fn run(ctx: &Ctx) {
     // spellings of a suite other than its registered name - the id written as text, other separators, other libraries' names for the same
     // suite - are "any other string": every row, some forty spellings each
     ctx.run_enum("name_aliases", name_aliases, true, "every row x ~40 other spellings (id in hex / decimal text, separators replaced, case, TLS_ prefix dropped or changed, OpenSSL-style names)", (0..nfile as u32).map(|i| vec![(i >> 8) as u8, i as u8]));
+    // the by-name routes at their very first use in a process, from several threads at once: a lazily built index that is published
+    // before it is complete answers None for a registered name then, and never again
+    let procs = ctx.pick(24, 200);
+    ctx.run_fn("fresh_concurrent", false, &format!("{} fresh processes, each with 8 threads released together that resolve every registered name through both by-name routes as their first registry use", procs), move |obs| {
+        let exe = std::env::current_exe().map_err(|e| Fail { sig: "harness:current-exe".into(), msg: format!("{}", e) })?;
+        for k in 0..procs {
+            obs.evals_add(1);
+            let o = output_with_progress(std::process::Command::new(&exe).args(["probe-names-concurrent", if k % 3 == 0 { "16" } else { "8" }]), 600, true).map_err(|e| Fail { sig: "harness:probe-names".into(), msg: format!("{}", e) })?;
+            let text = String::from_utf8_lossy(&o.stdout).trim().to_string();
+            ensure!(o.status.success(), "C12:fresh-concurrent:crash", "the probe process ended with {}: {}", o.status, trunc(&String::from_utf8_lossy(&o.stderr)));
+            ensure!(text.starts_with("failures=0 "), "C12:fresh-concurrent:lookup-failed", "fresh process {}: concurrent first by-name lookups of registered names did not all resolve: {}", k, trunc(&text));
+        }
+        obs.nontrivial(procs);
+        obs.sample(json!({"fresh_processes": procs, "threads_each": "8 or 16"}));
+        Ok(())
+    });
     // the statement over a history of edits: the registry of a build made after the list was edited is the edited list
     let edits = ctx.pick(1, 3);
     ctx.run_fn("rebuild_after_edit", false, "scratch copy of the tree under test built with a probe program, then the list is edited (a generated private-use row appended, a row renamed, a row deleted) and the copy is built again in the same target directory: the probe must see the edited list", move |obs| {
@@ -673,4 +689,38 @@ fn names(t: &mut Tape, obs: &mut Obs) -> R {
         }
     }
     Ok(())
+}
+
+/// child side of `fresh_concurrent`: k threads wait at a barrier, then each resolves every registered name (taken from the registry's
+/// entries, which is not a by-name route) through from_name and TryFrom<&str>; prints `failures=<n> lookups=<m>` and the first failures
+pub fn probe_names_concurrent(k: usize) {
+    let names: Vec<(u16, &'static str)> = CIPHERS.values().map(|c| (c.id.0, c.name)).collect();
+    let barrier = std::sync::Arc::new(std::sync::Barrier::new(k));
+    let names = std::sync::Arc::new(names);
+    let hs: Vec<_> = (0..k)
+        .map(|w| {
+            let (b, n) = (barrier.clone(), names.clone());
+            std::thread::spawn(move || {
+                let mut bad: Vec<String> = Vec::new();
+                b.wait();
+                for j in 0..n.len() {
+                    let (id, name) = n[(j + w * 37) % n.len()];
+                    let a = TlsCipherSuite::from_name(name).map(|c| c.id.0);
+                    let t = <&TlsCipherSuite>::try_from(name).ok().map(|c| c.id.0);
+                    if a != Some(id) || t != Some(id) {
+                        bad.push(format!("{}: from_name {:?} try_from {:?}", name, a, t));
+                    }
+                }
+                (n.len() * 2, bad)
+            })
+        })
+        .collect();
+    let (mut lookups, mut bad) = (0usize, Vec::new());
+    for h in hs {
+        if let Ok((l, b)) = h.join() {
+            lookups += l;
+            bad.extend(b);
+        }
+    }
+    println!("failures={} lookups={} {}", bad.len(), lookups, bad.iter().take(3).cloned().collect::<Vec<_>>().join(" | "));
 }
